@@ -74,6 +74,9 @@ func (h *Harness) run() {
 	}
 	exhaustive := true
 	for _, w := range ws {
+		if o := os.Getenv("C07_ONLY"); o != "" && o != w.Name {
+			continue
+		}
 		if !h.doWorkload(w, 0, "") {
 			exhaustive = false
 		}
@@ -90,7 +93,11 @@ func (h *Harness) run() {
 func (h *Harness) doWorkload(w Workload, only int, onlyMode string) bool {
 	r := h.r
 	wr := runWorkload(h.root, h.base, w, only)
-	defer os.RemoveAll(h.root + "/" + w.Name)
+	if os.Getenv("C07_KEEP") == "" {
+		defer os.RemoveAll(h.root + "/" + w.Name)
+	} else {
+		fmt.Fprintln(diag, "C07_KEEP:", h.root+"/"+w.Name, wr.Results)
+	}
 	rep := func(hit int, mode string) Case { return Case{Workload: w.Name, Hit: hit, Mode: mode} }
 	if wr.Err != "" {
 		r.TieFail("workload-run:"+w.Name, "the workload could not be run as scripted on the real code: "+wr.Err, map[string]interface{}{"case": rep(0, ""), "results": wr.Results})
@@ -188,7 +195,7 @@ func (h *Harness) doWorkload(w Workload, only int, onlyMode string) bool {
 				"reopened_height": hOf(j.res.S1), "recovered_height": hOf(j.res.S2), "final_height": hOf(j.res.S3)})
 		}
 	}
-	if only == 0 {
+	if only == 0 && (r.Thorough() || r.Replay != "" || w.Name == "extend" || w.Name == "reorg-after-save" || w.Name == "gen0") {
 		h.truncations(w, wr, blocksFile)
 	}
 	return complete
@@ -397,7 +404,7 @@ func (h *Harness) truncations(w Workload, wr *WlRun, blocksFile string) {
 			r.Hit("known:" + keyTruncIdx)
 			continue
 		}
-		if j.file == datName && c.Open == "ok" && strings.Contains(bad, "EOF") {
+		if j.file == datName && c.Open == "ok" && (c.Readable != "" || strings.Contains(bad, "EOF")) {
 			r.PropFail(keyTruncDat, "index records point past the end of the data file; not detected at open, the block is unreadable later: "+where+": "+bad, rep)
 			r.Hit("known:" + keyTruncDat)
 			continue
